@@ -139,8 +139,13 @@ func (v *vclock) after(s *sim, st rig.StepResult, ctx stepCtx) {
 		if ctx.stateBefore == "pending(resend)" {
 			v.feat["inbound-while-pending-during-recovery"] = true
 			in, stash, _, rangeEnd := s.r.V.ResendInfo()
+			// (outside the pending state the resend state itself asks again when a gap fill arrives
+			// while the expected number sits exactly at the end of the current chunk - with chunk
+			// size 1 that is the case at the start of every chunk; the pending state must not add
+			// anything to that, but it is not asked to suppress it)
+			sameAsPlainResend := ctx.msgType == "4" && fixwire.GetS(ctx.fields, 123) == "Y" && v.resendBefore.chunkEnd != 0 && v.resendBefore.chunkEnd == ctx.tBefore
 			for _, e := range s.r.Outs(st) {
-				if e.MsgType == "2" && ctx.hasSeq && ctx.seq > ctx.tBefore {
+				if e.MsgType == "2" && ctx.hasSeq && ctx.seq > ctx.tBefore && !sameAsPlainResend {
 					vk.Violation(s.t, c, "C20/recovery-disturbed/second-resend-request", "a too-high message in pending(resend) triggered another ResendRequest\n%s", s.history())
 				}
 			}
